@@ -517,6 +517,7 @@ type ScenarioResult struct {
 	Setup string     `json:"setup"`
 	Ops   []OpResult `json:"ops"`
 	Fatal string     `json:"fatal,omitempty"`
+	SetupPanic string `json:"setup_panic,omitempty"`
 }
 
 func renderErr(err error) string {
@@ -653,6 +654,32 @@ func runScenario(sc *Scenario) (res *ScenarioResult) {
 		opts |= flags.PassAfterNonOption
 	}
 
+	// NewParser swallows a declaration error into internalError, which the first
+	// ParseArgs reports.  Probe with a throw-away parser over a fresh instance of the
+	// same declaration: a setup-type error ends the scenario here ("D:<err>").
+	if sc.HasData {
+		var perr error
+		var ppan interface{}
+		func() {
+			defer func() { ppan = recover() }()
+			probe := &runner{sc: sc, cmdIDs: map[flags.Commander]string{}}
+			data, _ := probe.newData(sc.Data)
+			_, perr = flags.NewParser(data, flags.None).ParseArgs(nil)
+		}()
+		if ppan != nil {
+			res.Setup = "PANIC"
+			res.SetupPanic = fmt.Sprintf("%v", ppan)
+			return res
+		}
+		if fe, ok := perr.(*flags.Error); ok {
+			switch fe.Type {
+			case flags.ErrTag, flags.ErrShortNameTooLong, flags.ErrDuplicatedFlag, flags.ErrInvalidTag:
+				res.Setup = "D:" + renderErr(perr)
+				return res
+			}
+		}
+	}
+
 	oldArg0 := os.Args[0]
 	os.Args[0] = l1dec(sc.Cfg.Name)
 	var p *flags.Parser
@@ -772,6 +799,8 @@ func runScenario(sc *Scenario) (res *ScenarioResult) {
 		}()
 		if pan != nil {
 			res.Setup = fmt.Sprintf("PANIC@%d", ai)
+			res.Fatal = ""
+			res.SetupPanic = fmt.Sprintf("%v", pan)
 			return res
 		}
 		if err != nil {
